@@ -1,16 +1,16 @@
 from vf import Query
 
-SRC = ["src/kernel/actor/SynchroObserver.cpp", "src/kernel/actor/SimcallObserver.cpp", "src/mc/transition/Transition.cpp", "src/mc/transition/TransitionSynchro.cpp",
+SRC = ["src/kernel/actor/CommObserver.cpp", "src/kernel/activity/MessageQueueImpl.cpp", "src/kernel/actor/SynchroObserver.cpp", "src/kernel/actor/SimcallObserver.cpp", "src/mc/transition/Transition.cpp", "src/mc/transition/TransitionSynchro.cpp",
        "src/mc/transition/TransitionActor.cpp", "src/mc/transition/TransitionRandom.cpp", "src/mc/transition/TransitionComm.cpp", "src/mc/transition/TransitionAny.cpp",
        "src/kernel/activity/MutexImpl.cpp", "src/kernel/activity/SemaphoreImpl.cpp", "src/kernel/activity/BarrierImpl.cpp", "src/kernel/activity/ConditionVariableImpl.cpp",
        "src/kernel/activity/ActivityImpl.cpp", "src/mc/api/BasicTypes.cpp"]
 KINDS = ["mutex_async_lock", "mutex_trylock", "mutex_unlock", "mutex_wait", "mutex_test", "sem_async_lock", "sem_unlock", "sem_wait", "barrier_async_lock", "barrier_wait",
-         "condvar_async_lock", "condvar_wait", "condvar_signal", "condvar_broadcast", "random", "actor_join", "actor_exit", "actor_sleep", "actor_create"]
+         "condvar_async_lock", "condvar_wait", "condvar_signal", "condvar_broadcast", "random", "actor_join", "actor_exit", "actor_sleep", "actor_create", "mess_iput", "mess_iget"]
 META = {
     "level_text": "Encode/decode round trip over the real code: the real Observer::serialize of each simcall kind writes into a byte queue standing for the socket, the real "
                   "deserialize_transition and transition constructors read it back; ids, pids, flags and values are symbolic. Decided: same type, same actor, same fields, "
                   "and the reader consumes exactly the bytes written (a shortfall is the hang the property mentions).",
-    "bounds": "19 simcall kinds (mutex x5, semaphore x3, barrier x2, condition variable x4, random, actor join/exit/sleep/create); object ids any unsigned, pids 1..30 (the checker refuses larger ids), owner "
+    "bounds": "19 simcall kinds (mutex x5, semaphore x3, barrier x2, condition variable x4, random, actor join/exit/sleep/create); object ids any unsigned, issuer pid 1..30, the other pids (mutex owner, join target, created child) 1..33: 31 and above must be refused by an exception and never decoded as another actor, owner "
               "present or not, granted / timeout flags, semaphore capacity and random bounds symbolic; unwind 8",
     "outside": "communication, message-queue, test/wait/testany/waitany and object-access observers (they serialise through activities and strings: call locations are "
                "std::string, not tracked), the transport itself (mc::Channel buffering, sockets, AppSide/CheckerSide message loop), the guarded logging hook suggested in the "
